@@ -368,6 +368,18 @@ func c15Gate(c *Ctx, gc gateCase) error {
 			expectTypeErr = true
 		}
 	}
+	if gc.n == 2 && gc.pos >= 0 && gc.nilAt < 0 && in[0] != nil && in[1] != nil && (c.Idx/8)%4 == 1 {
+		// the probe tensor at BOTH positions (one object given twice): each position still
+		// allows what it allows
+		in[1-gc.pos] = in[gc.pos]
+		expectTypeErr = false
+		for i := 0; i < gc.n; i++ {
+			if (!variadic && i < max || variadic) && !allowedAt(i, in[i].Dtype()) {
+				expectTypeErr = true
+			}
+		}
+		c.Count("gate:one-object-at-both-positions", 1)
+	}
 	if c.Idx%2 == 1 {
 		// the list is a prefix of a larger array that holds other tensors behind its
 		// length (a caller's scratch buffer): what lies behind len is not part of the list
